@@ -277,6 +277,33 @@ func init() {
 			}
 		}
 	}
+	// (C09 continued) the failing call returns one of the library's OWN error values (what a handler
+	// gets by delegating to SkipValue / ReadString / ... on a truncated or malformed member), with the
+	// offsets 0, exact end of the member, number of bytes left, and beyond
+	c09lib := suites["c09"]
+	suites["c09"] = func(e *emitter, r *rng, thorough bool) {
+		c09lib(e, r, thorough)
+		docsA := []string{`[1,[2,3],"s",{"k":4},null]`, `[[1],"x"]`, `["s"]`, `[true, {"a":`, `[1,[2,`, `[[`}
+		docsO := []string{`{"a":1,"b":[2,3],"c":"s","d":{"k":4},"e":null}`, `{"a":[1],"b":"x"}`, `{"a":"xyz`, `{"a":{"b":`, `{"a":[`}
+		for k := 0; k < 26; k++ {
+			for _, d := range docsA {
+				for pos := 0; pos < 4; pos++ {
+					for _, off := range []string{"0", "1", "3", fmt.Sprint(len(d)), "100"} {
+						sc := strings.Repeat("x,", pos) + "e" + off + "@" + fmt.Sprint(k)
+						e.emit("harr %s %s %s", hs([]byte(d)), sc, r.pick([]string{"nobuf", "nil", "-", "7,7"}))
+					}
+				}
+			}
+			for _, d := range docsO {
+				for pos := 0; pos < 4; pos++ {
+					for _, off := range []string{"0", "1", "3", fmt.Sprint(len(d)), "100"} {
+						sc := strings.Repeat("x,", pos) + "e" + off + "@" + fmt.Sprint(k)
+						e.emit("hobj %s %s %s", hs([]byte(d)), sc, r.pick([]string{"nobuf", "nil", "-", "7,7"}))
+					}
+				}
+			}
+		}
+	}
 	// C10: hostile handler returns, junk stacks, every entry point
 	suites["c10"] = func(e *emitter, r *rng, thorough bool) {
 		hostile := []string{"-9223372036854775808", "-4294967296", "-1", "0", "1", "2", "3", "x", "2147483648", "4294967296",
